@@ -251,6 +251,37 @@ def exhaustive_shard(desc):
     return sh
 
 
+def large_shard(desc):
+    """Large-table stratum: a generated population replicated to > 1000 rows (fresh unsorted ids per
+    copy), simulated in two row orders.  Reaches code paths that depend on the table size."""
+    import datetime
+
+    from .. import dates as D
+
+    sh = core.Shard()
+    known = core.load_known(PROP)
+    date = datetime.date.fromisoformat(desc["date"])
+
+    def oracle(pop):
+        n = len(pop.df)
+        k = -(-desc["rows"] // n)
+        big = popgen.replicate(pop.df, k, seed=desc["seed"] % 2**31)
+        rng = np.random.RandomState(desc["seed"] % 2**31)
+        perm = [int(i) for i in rng.permutation(len(big))]
+        fails = check(big, date, perm, "strings", 1)
+        sh.nontrivial.add("large|" + core.digest([desc["date"], big["p_id"].tolist()[:50], perm[:50]]))
+        sh.classes["large-table(>1000 rows)"] += 1
+        sh.sample({"date": desc["date"], "rows": int(len(big)), "copies": int(k), "base_population": popgen.brief(pop.df, max_rows=4)}, limit=1)
+        for f in fails:
+            if f.key not in known:
+                f.case = popcheck.payload(big, date, perm=perm, label="strings", lab_seed=1)
+        return fails
+
+    core.explore(popgen.populations(date, mode="branch", max_households=3), oracle, n=desc["n"],
+                 seed=D.sub_seed(desc["seed"], PROP, "large", desc["date"]), shard=sh, known=known, shrink=False)
+    return sh
+
+
 def run(tier, seed, t0):
     extra = None
     if tier == "thorough":
@@ -260,12 +291,16 @@ def run(tier, seed, t0):
         descs = [{"date": d, "shapes": [i], "variant": k}
                  for k, d in enumerate(days) for i in range(len(SHAPES))]
         extra = [("vf.checks.c01", "exhaustive_shard", descs)]
+        big_days = [s[0].isoformat() for s in D.pick(D.strata(), 16, seed, PROP, "large")]
+        extra.append(("vf.checks.c01", "large_shard", [{"date": d, "rows": 1100, "n": 3, "seed": D.sub_seed(seed, "large", d)} for d in big_days]))
     else:
         from .. import dates as D
 
         days = [s[0].isoformat() for s in D.pick(D.strata(), 1, seed, PROP, "exh")]
         descs = [{"date": days[0], "shapes": [i], "variant": seed % 5} for i in range(len(SHAPES))]
         extra = [("vf.checks.c01", "exhaustive_shard", descs)]
+        big_days = [s[0].isoformat() for s in D.pick(D.strata(), 4, seed, PROP, "large")]
+        extra.append(("vf.checks.c01", "large_shard", [{"date": d, "rows": 1100, "n": 1, "seed": D.sub_seed(seed, "large", d)} for d in big_days]))
     return popcheck.run(__name__, tier, seed, t0, extra_descs=extra)
 
 
